@@ -17,7 +17,7 @@ VH = {
                      "monomials; oracle = dense Jordan-Wigner matrix algebra, tolerance 1e-12 x sum|coefficients|; non-trivial = part of an exhaustive enumeration or >= 1 library "
                      "product/commutator with both operands having >= 2 stored monomials; distinct = enumeration block / hash of the generated polynomials"),
     "C15": dict(drivers=[dict(driver="vertex", flavours=P2, timeout=60)],
-                floor=dict(quick=20, thorough=60),
+                floor=dict(quick=20, thorough=200),
                 rule="cases = (a) MatsubaraContainer4<CountingSource> x window size NM (quick 0,1,2,3,4,6 / thorough 0..8,12,16) x phase (fresh, refill after a larger window, refill after a smaller window, "
                      "random fill chain through NM=0), whole box [-NM-3,NM+2]^3 read exhaustively with an injective call-logging source: stored set F observed from the calls made by fill(); "
                      "(b) generated models (N=2..4, default partition) x index quadruples (all for N=2, else ~8 incl. all-equal, i=j, k=l, cross-spin) x NM in a random order of {0,1,2,3} on one Vertex4 object, "
@@ -41,18 +41,18 @@ VH = {
                      "{generic, integers, negative, zero-mix} x {real,complex build}; oracle = doc comments of LatticePresets.h transcribed to Jordan-Wigner matrices; "
                      "non-trivial = N >= 2 and (documented operator non-zero, or the input contains a non-zero-amplitude user term that vanishes by the Pauli principle); distinct = canonical lattice + call sequence"),
     "C08": dict(drivers=[dict(driver="partinv", flavours=P2, timeout=240)],
-                floor=dict(quick=30, thorough=300),
+                floor=dict(quick=30, thorough=2400),
                 rule="cases = one generated model computed under 2-4 partitions (default analysis, symmetries ignored, 1-2 custom sets of confirmed-conserved integer-linear integrals of motion); all pipelines run in full; "
                      "pairwise monitors against the first partition: sorted spectrum, ground energy, <E>, <N>, <n_i>, <n_i n_j>, <c+_a c_b>, G_ij (4 Matsubara numbers + tau) for all diagonal and 6 off-diagonal pairs, "
                      "susceptibility (3 bosonic numbers + tau) for 5 operator pairs, chi4 for 3 quadruples x 6 triples when N<=3(4); tolerances = sum of both runs' documented-reduction allowances; "
                      "non-trivial = the partitions have different block counts and N>=2; distinct by model + partition set"),
     "C19": dict(drivers=[dict(driver="trunc", flavours=P2, timeout=120)],
-                floor=dict(quick=40, thorough=400),
+                floor=dict(quick=40, thorough=4000),
                 rule="cases = generated model x beta in [1,200] x eps in {0,1e-14,1e-10,1e-6,1e-3,1e-2,0.3}; one pipeline, observables built twice: with the untruncated DensityMatrix and with a copy after truncateBlocks(eps); "
                      "monitors: discarded block => all its weights <= eps; |dG|<=2 eps dim/|w_n| (and 2 eps dim in tau), |d<c+c>|<=eps dim, |d chi(iW)|<=eps dim max(1/|W|,beta), |d chi(tau)|<=eps dim, |d chi4|<=eps dim^2 beta^3; eps=0 => identical; "
                      "non-trivial = >=2 blocks and (>=1 block discarded or eps=0); distinct by model+eps"),
     "C13": dict(drivers=[dict(driver="g2cont", flavours=P2, timeout=120)],
-                floor=dict(quick=40, thorough=400),
+                floor=dict(quick=40, thorough=1600),
                 rule="cases = random call histories (3-12 calls) on one TwoParticleGFContainer over a small generated model (N=2..3 quick, ..4 thorough): prepareAll(random index sets, repeated), "
                      "computeAll(split / nosplit), on-demand operator()(q) [+prepare][+compute], evaluations at random Matsubara triples of touched quadruples and their exchange partners; the precondition "
                      "'prepared and computed' is read from the element's own status; monitors: container value == stand-alone TwoParticleGF for the same quadruple, both exchange identities, every listed "
@@ -64,17 +64,17 @@ VH = {
                      "after every call the real lattice is compared with a sequential reference model (label -> sizes, per-order term lists); calls expected to be refused and all getSite look-ups are rehearsed in a forked child; "
                      "non-trivial = history has >= 1 accepted valid term/preset call, >= 1 rejected invalid call and >= 2 sites; distinct = the history itself"),
     "C12": dict(drivers=[dict(driver="wick", flavours=P2, timeout=240)],
-                floor=dict(quick=20, thorough=200),
+                floor=dict(quick=20, thorough=1000),
                 rule="cases = random Hermitian single-particle matrix h over all modes (classes generic / degenerate / zero / block-diagonal / rank-deficient / integers; complex in the complex build, spin-mixing allowed) "
                      "x beta x partition; monitors: G_ij(z) for all (i,j) at 3 Matsubara and 3 off-axis z vs LU inverse of (z-h); Vertex4::value on the 125-point grid {-2..2}^3 for all (N=2) or 10-30 quadruples must vanish "
                      "within 2*tol_chi + beta*(|G| tol_G' + |G'| tol_G); non-trivial = some chi non-zero and resonant terms present; distinct by model+partition"),
     "C11": dict(drivers=[dict(driver="gfsym", flavours=P2, timeout=60)],
-                floor=dict(quick=30, thorough=300),
+                floor=dict(quick=30, thorough=3000),
                 rule="cases = generated model x partition x {real,complex}, every 5th with beta in [200,2000] (beta*|pole| up to ~1e4); per index pair: conj symmetry at 4 random off-axis z, "
                      "z*G(z)->delta at |z|=1e4..1e8(1+|H|), Im G_ii(i w_n)<0, of_tau vs trace oracle at 7 points incl. 0 and beta, G_ii(tau)<=0, G(0+)+G(beta-)=-delta, G_ii(beta-)=-<n_i> (DensityMatrix), "
                      "16-point composite Gauss-Legendre transform of of_tau vs operator()(n); non-trivial = dim>=4 and non-zero bandwidth; distinct by model+partition"),
     "C14": dict(drivers=[dict(driver="susc", flavours=P2, timeout=60)],
-                floor=dict(quick=40, thorough=400),
+                floor=dict(quick=40, thorough=4000),
                 rule="cases = generated model (degenerate / near-degenerate classes over-represented) x partition x {real,complex}; per case all (N<=2) or 8-14 operator quadruples (a,b,c,d) incl. S_z-changing ones x "
                      "n in {0,+-1,2,-3,+-50} vs the bosonic definition integral (stable Lehmann of an independent ED, cross-checked with the two-block exponential for N<=4), of_tau on 6 points incl. 0 and beta vs the trace formula, "
                      "three ways of subtracting the disconnected part; non-trivial = some component non-zero and dim>=4; distinct by model+partition"),
@@ -84,17 +84,17 @@ VH = {
                      "14-24 Matsubara triples incl. n1=n3, n2=n3, n1+n2=-1 against the triple time-ordered integral evaluated by 4-block matrix exponentials (6 orderings); tables of compute(false,freqs) and "
                      "compute(true,freqs) vs on-demand on a 129-point grid; non-trivial = the exercised objects held >=1 resonant term and >=1 component is non-vanishing; distinct by model+partition"),
     "C10": dict(drivers=[dict(driver="fieldop", flavours=P2, timeout=60)],
-                floor=dict(quick=40, thorough=400),
+                floor=dict(quick=40, thorough=1200),
                 rule="cases = generated model x partition (default/ignored/custom integer-linear) x {real,complex}; for every index: c, c+ computed one by one and through FieldOperatorContainer, "
                      "c+_i c_j for all/sampled pairs; monitors: stored blocks (row- and column-major copies) rotated back with the stored eigenvectors == Jordan-Wigner matrix, stored c == adjoint of stored c+ "
                      "(assembled and per part), block maps transposed, {c_i,c+_j}=delta_ij, {c_i,c_j}=0 assembled over all blocks; non-trivial = dim>=4 and H not diagonal; distinct by model+partition"),
     "C09": dict(drivers=[dict(driver="dm", flavours=P2, timeout=30)],
-                floor=dict(quick=60, thorough=600),
+                floor=dict(quick=60, thorough=2000),
                 rule="cases = generated model x partition (default/ignored/custom) x beta log-uniform in [1e-3,1e3] x stress class (none / uniform offset +-1e3..1e6 / bandwidth x10..1e3); "
                      "monitors: weights finite, >=0, sum to 1, pairwise Boltzmann ratios, weights vs independent log-sum-exp Gibbs state, <E>, <N>, <n_i>, <n_i n_j>, <c+_i c_j> vs full-space traces; "
                      "non-trivial = dim>=4 and non-zero bandwidth; distinct by model+partition+stress"),
     "C07": dict(drivers=[dict(driver="symm", flavours=P2, timeout=30)],
-                floor=dict(quick=60, thorough=600),
+                floor=dict(quick=60, thorough=8000),
                 rule="cases = generated lattice (heterogeneous spin/orbital counts, spinless sites, 3-spin sites) x Hamiltonian (with/without N, S_z conservation) x analysis mode "
                      "(default / ignored / custom candidates: integer-linear, decimal-linear, non-linear diagonal, non-conserved, conserved-but-non-diagonal); monitors computed independently from "
                      "Jordan-Wigner images: partition + address round trip, H block-diagonality, single-target of c_i, c+_i, c+_i c_j, getBlockMapping == independent image map, must-reject candidates rejected; "
@@ -106,7 +106,7 @@ VH = {
                      "cross-checked against the two-block matrix-exponential integral for N<=4(5); tolerance = dropped residues <=1e-8 / distance + pole-merge and like-term allowances "
                      "computed in the library's eigenbasis; non-trivial = H has off-diagonal elements and dim>=4; distinct by canonical model description + partition"),
     "C03": dict(drivers=[dict(driver="ham", flavours=P2, timeout=30)],
-                floor=dict(quick=60, thorough=600),
+                floor=dict(quick=60, thorough=6000),
                 rule="cases = generated (lattice, terms, parameter class, partition mode[, custom integrals of motion]) x {real,complex build}; "
                      "non-trivial = H has off-diagonal elements, dim >= 4 and (>= 2 blocks or symmetries ignored); distinct = hash of the canonical model description + partition"),
 }
